@@ -14,6 +14,7 @@ from fractions import Fraction
 from .poly import z3mod
 
 Z3_OLD = '/usr/bin/z3'
+CVC5_FALLBACK_MS = 15000     # cvc5 as deciding solver for core obligations z3 leaves unknown
 
 
 class HarnessError(Exception):
@@ -80,7 +81,10 @@ class Session:
         self.t0 = time.time()
 
     # -- raw query
-    def solve(self, cons, timeout_ms=None, tactic=None, label=''):
+    def solve(self, cons, timeout_ms=None, tactic=None, label='', fallback_ms=0):
+        """One query on z3 5.1 (in process).  With fallback_ms > 0 a quantifier-free query that z3 leaves 'unknown' is handed
+        to the cvc5 1.0 binary as SMT-LIB2 text under a hard wall-clock limit; only its `unsat` is used as a verdict (no model
+        is read back, so its `sat` stays inconclusive)."""
         z3 = z3mod()
         s = z3.Solver() if tactic is None else (z3.Then(*tactic).solver() if isinstance(tactic, (tuple, list)) else z3.Tactic(tactic).solver())
         s.set('timeout', int(timeout_ms or self.timeout_ms))
@@ -93,6 +97,9 @@ class Session:
         self.stats.add_time('z3-%s' % z3.get_version_string(), dt)
         res = str(r)
         model = s.model() if res == 'sat' else None
+        if res == 'unknown' and fallback_ms:
+            if self._cvc5_decide(s, fallback_ms, label) == 'unsat':
+                return 'unsat', None
         if self.diff_every and self.stats.queries % self.diff_every == 1 and res in ('sat', 'unsat') and dt < 2.0:
             self._diff(s, res, label)
         return res, model
@@ -134,6 +141,53 @@ class Session:
         self.stats.queries += 1
         self.stats.add_time('z3-cli(%s)' % os.path.basename(exe), time.time() - t)
         return res, None
+
+    def _cvc5_decide(self, solver, limit_ms, label):
+        """cvc5 1.0 binary as DECIDING solver for quantifier-free (mostly nonlinear real) queries z3's nlsat does not finish:
+        incremental linearisation + coverings decide in seconds what CAD with 53-bit rational coefficients does not."""
+        import shutil
+        exe = shutil.which('cvc5')
+        if exe is None:
+            return 'unknown'
+        z3 = z3mod()
+        texts = [solver.to_smt2()]
+        if 'forall' in texts[0] or 'exists' in texts[0] or 'declare-datatypes' in texts[0]:
+            return 'unknown'
+        secs = max(1, int(limit_ms / 1000))
+        res = 'unknown'
+        t = time.time()
+        for attempt in range(2):
+            with tempfile.NamedTemporaryFile('w', suffix='.cvc5.smt2', delete=False, dir=_scratch()) as f:
+                f.write('(set-logic ALL)\n' + texts[-1])
+                path = f.name
+            try:
+                p = subprocess.run([exe, '--tlimit=%d' % (secs * 1000), path], capture_output=True, text=True, timeout=secs + 5)
+                out = [l for l in p.stdout.strip().splitlines() if l.strip()]
+                bad = p.returncode != 0 or any('(error' in l for l in out) or 'rror' in p.stderr
+                if bad and 'Parse Error' in (p.stderr + p.stdout) and attempt == 0:
+                    # z3 prints unary sums `(+ t)`: retry on the assertions after z3's term simplifier
+                    s2 = z3.Solver()
+                    for a in solver.assertions():
+                        s2.add(z3.simplify(a))
+                    texts.append(s2.to_smt2())
+                    continue
+                if not bad and out and out[0] in ('sat', 'unsat'):
+                    res = out[0]
+                break
+            except subprocess.TimeoutExpired:
+                break
+            finally:
+                try:
+                    os.unlink(path)
+                except OSError:
+                    pass
+        self.stats.queries += 1
+        self.stats.add_time('cvc5-1.0(bin, deciding)', time.time() - t)
+        k = 'cvc5-decided-' + res
+        self.stats.kinds[k] = self.stats.kinds.get(k, 0) + 1
+        if res == 'unsat':
+            self.stats.notes.append('decided by cvc5 (z3 unknown): %s' % label)
+        return res
 
     def _diff(self, solver, res, label):
         """Re-run the query with the z3 4.8.12 binary and with the cvc5 1.0 binary through SMT-LIB2 and compare."""
@@ -227,7 +281,8 @@ class Session:
         st = self.stats
         st.obligations += 1
         st.kinds[kind] = st.kinds.get(kind, 0) + 1
-        res, model = self.solve(list(assumptions) + list(negated_claim), timeout_ms, tactic, label)
+        res, model = self.solve(list(assumptions) + list(negated_claim), timeout_ms, tactic, label,
+                                fallback_ms=(CVC5_FALLBACK_MS if core else 0))
         if res == 'unsat':
             if twin:
                 st.twins += 1
